@@ -1,10 +1,10 @@
 (* C11 -- every file the tool writes is valid against the published schemas.
-   THIS HALF: the schema side.  `schema_manifest` / `schema_directory` are regenerated from /repo/xsd/ASCMHL.xsd and
+   Sections 1-4: the schema side.  `schema_manifest` / `schema_directory` are regenerated from /repo/xsd/ASCMHL.xsd and
    /repo/xsd/ASCMHLDirectory.xsd on every run (Gen/Generated.v, types in Model/SchemaDef.v); `validate` is the generic
    executable validator of Model/Schema.v -- the same function that is extracted and compared with libxml2
    (lxml.etree.XMLSchema) on the tool's real output and on systematic mutants of it (harness/vh/props/c11.py).
-   Statements only; proofs are in Proofs/SchemaFacts.v.  The other half (the writers' model `emit_hashlist`,
-   `emit_chain` of Model/Emit.v and the theorems `manifest_valid`, `chain_valid`) is marked TODO at the end. *)
+   Statements only; proofs are in Proofs/SchemaFacts.v (sections 1-4: the schema side) and Proofs/EmitValidFacts.v
+   (section 5: the property itself, C11_manifest_valid / C11_chain_valid, for the writers' model of Model/Emit.v). *)
 From Coq Require Import String.
 From MHL Require Import Gen.Generated Model.Codec Model.Schema Proofs.SchemaFacts.
 
@@ -257,31 +257,166 @@ Proof. vm_compute. auto. Qed.
 Close Scope string_scope.
 
 (* ------------------------------------------------------------------------------------------------------------
-   TODO (second half, needs coq/Model/Emit.v : emit_hashlist, emit_chain -- the model of hashlist_xml_parser.write_hash_list
-   and chain_xml_parser.write_chain as functions into Model/Xml.v trees):
+   5. THE PROPERTY: every document the writers produce is valid.
+      Writers: emit_hashlist / emit_chain of Model/Emit.v (hashlist_xml_parser.write_hash_list, chain_xml_parser.write_chain
+      as functions from the Python object model to trees; tied to the real writers by C10's correspondence and, here, by
+      validating model-emitted and tool-written documents side by side).
+      Hypothesis: `reach o = true` / `reach_chain c = true` (Model/Reach.v) -- executable predicates collecting the
+      invariants of the objects the create / flatten commands hand to the writers; the harness evaluates the EXTRACTED
+      `reach` on every object the real tool writes (hooked at write_hash_list / write_chain) and on every file read back
+      by the real reader.  Which clause serves which part of the schema:
+        xh_creator = Some c                      <creatorinfo> is required (the real writer raises without it)
+        creator_reach: date_text_ok              <creationdate> xs:dateTime   (I7: iso_format of an in-range date)
+                       author_reach (email_ok)   author/@email pattern        (property text: "syntactically valid e-mail")
+        procinfo_reach: process type in enum     <process> enumeration
+                        root_reach               <roothash>: entries as below; no previousPath (the schema has none there)
+                        ignore = Some (_ :: _)   <ignore> needs >= 1 <pattern> (I6)
+        record_reach: entry_reach (action_ok)    @action enumeration or absent (I5)
+                      entry_reach (xdate_ok)     @hashdate xs:dateTime (I7)
+                      opt_xdate_ok lastmod       path/@lastmodificationdate (I7)
+                      fmts_ok (sorted names)     <hash>: c4? md5? sha1? xxh128? xxh3? xxh64? after the writer's sort (I2, I3)
+                      fmts_ok (names)            <content>/<structure> in object order (I4, I3)
+                      opt_size_ok / size absent  path/@size xs:integer (I9); no size attribute on a directory path (I10)
+        (no clause)                              <hashes> / <references> omitted when empty (I1) is a property of
+                                                 emit_hashlist; paths, digests, host, tool, patterns, references: xs:string
+        reach_chain: non-empty                   <ascmhldirectory> needs >= 1 <hashlist>
+                     c4 entries only             any other entry is written as an empty <hashlist/>
+                     seq_ok                      @sequencenr xs:integer (I9)
+      The proof (Proofs/EmitValidFacts.v) first shows by computation that the regenerated schema values are the
+      spelled-out `expected_manifest` / `expected_directory` (fails when an .xsd changes), then goes element by element
+      with the rules of section 2. *)
+From MHL Require Import Model.Reach Proofs.EmitValidFacts.
 
-     Theorem manifest_valid : forall o, Reach o -> validate schema_manifest (emit_hashlist o) = true.
-     Theorem chain_valid    : forall c, ReachChain c -> validate schema_directory (emit_chain c) = true.
+Theorem C11_manifest_valid : forall o, reach o = true -> validate schema_manifest (emit_hashlist o) = true.
+Proof. exact manifest_valid. Qed.
+Print Assumptions C11_manifest_valid.
 
-   where `Reach` is the inductive set of hash lists the create / flatten models hand to the writer (any tree, history,
-   nesting, option combination, exit code).  Plan: rewrite the goal with C11_validator_exact, unfold the GENERATED
-   schema value one level at a time and discharge each level with the rules of section 2:
-     hashlist      C11_seq_intro on [creatorinfo][processinfo][hashes?][][references?], C11_required / C11_optional
-     hashes        C11_choice_repeat (needs: the writer omits <hashes> when there is no record -- invariant I1)
-     hash          C11_seq_intro; the inner sequence of six optional format elements needs the entries sorted by
-                   format name and pairwise distinct (I2: sorted(...) in _media_hash_xml_element + at most one entry per
-                   format in a media hash), every format name one of the six of the schema (I3)
-     content /     same six-slot argument for directory hashes: needs the REQUEST list sorted and duplicate free (I4,
-     structure     commands.py sorts the formats; -h repeated is de-duplicated)
-     action        C11_simple_intro with SEnum: actions in {original, verified, failed} after promotion (I5)
-     ignore        C11_occurs_repeat with mn = 1: at least one pattern (I6: the default patterns are always present)
-     dates         C11_datetime_render: every date string is render_datetime of in-range fields with a whole-minute
-                   offset within +-14:00 (I7; FALSE for local-mean-time zones, see C11_ex_date_lmt_offset), or the text
-                   carried over verbatim from a parsed (hence already valid?) manifest when flattening (I8)
-     size,         C11_integer_digits: str(int) of a non-negative number below 10^24 (I9)
-     sequencenr
-     e-mail        C11_email_spec: accepted iff the caller's --author_email is in email_lang (hypothesis of the theorem,
-                   the property text says "syntactically valid e-mail")
-     attributes    attrs_ok by computation on the concrete attribute lists (only declared names are ever written: I10)
-   Definition C11_full_statement : Prop := (forall o, Reach o -> validate schema_manifest (emit_hashlist o) = true)
-                                        /\ (forall c, ReachChain c -> validate schema_directory (emit_chain c) = true).  *)
+Theorem C11_chain_valid : forall c, reach_chain c = true -> validate schema_directory (emit_chain c) = true.
+Proof. exact chain_valid. Qed.
+Print Assumptions C11_chain_valid.
+
+Definition C11_full_statement : Prop :=
+  (forall o, reach o = true -> validate schema_manifest (emit_hashlist o) = true)
+  /\ (forall c, reach_chain c = true -> validate schema_directory (emit_chain c) = true).
+Theorem C11_full : C11_full_statement.
+Proof. exact (conj manifest_valid chain_valid). Qed.
+Print Assumptions C11_full.
+
+(* the regenerated schema values are the ones the proof spells out *)
+Theorem C11_schema_manifest_shape : schema_manifest = expected_manifest.
+Proof. exact schema_manifest_shape. Qed.
+Print Assumptions C11_schema_manifest_shape.
+Theorem C11_schema_directory_shape : schema_directory = expected_directory.
+Proof. exact schema_directory_shape. Qed.
+Print Assumptions C11_schema_directory_shape.
+
+(* the formatters: what iso_format prints for an in-range date, what str(n) prints, is accepted *)
+Theorem C11_iso_format_valid : forall keep d, xdate_ok d = true -> datetime_ok (iso_format keep d) = true.
+Proof. exact datetime_ok_iso_format. Qed.
+Print Assumptions C11_iso_format_valid.
+Theorem C11_iso_format_is_render : forall keep d, xdate_ok d = true ->
+  iso_format keep d = render_datetime (dt_y d) (dt_mo d) (dt_d d) (dt_h d) (dt_mi d) (dt_s d) (if keep then dt_us d else 0%N)
+                                      (dt_off d <? 0)%Z (Z.abs_N (dt_off d) / 60)%N (Z.abs_N (dt_off d) mod 60)%N.
+Proof. exact iso_format_render. Qed.
+Print Assumptions C11_iso_format_is_render.
+Theorem C11_dec_valid : forall n, size_ok n = true -> integer_ok (dec_of_N n) = true.
+Proof. exact integer_ok_dec_of_N. Qed.
+Print Assumptions C11_dec_valid.
+
+(* the slot clause of `reach` in words: strictly increasing by code point (= sorted and free of duplicates) and only names
+   the schema lists -- which are exactly the formats the tool supports (regenerated constant) *)
+Theorem C11_fmts_ok_meaning : forall l,
+  fmts_ok l = true <-> Sorted.StronglySorted text_lt l /\ Forall (fun x => In x schema_format_order) l.
+Proof. exact fmts_ok_iff. Qed.
+Print Assumptions C11_fmts_ok_meaning.
+Theorem C11_schema_formats_are_supported : forall x, In x schema_format_order <-> In x supported_hashformats.
+Proof. exact schema_formats_are_supported. Qed.
+Print Assumptions C11_schema_formats_are_supported.
+
+(* ---- non-vacuity: rich objects satisfy `reach`; their documents validate; broken objects fail both ---- *)
+Open Scope string_scope.
+Definition ex_date (us : N) (off : Z) : xdate := mkXDate 2026 10 1 20 25 58 us off.
+Definition ex_entry (f a : string) (us : N) : xentry := mkXEntry (t f) (Some (t "0123abcd")) (Some (t a)) (Some (ex_date us 345)) None.
+Definition ex_dentry (f : string) : xentry := mkXEntry (t f) (Some (t "c0ffee")) None (Some (ex_date 7 (-150))) (Some (t "beef")).
+Definition ex_file (p : string) (es : list xentry) (prev : option text) : xrecord :=
+  mkXRecord (Some (t p)) false (Some 0%N) (Some (ex_date 0 345)) es prev.
+Definition ex_dir (p : string) (es : list xentry) : xrecord := mkXRecord (Some (t p)) true None (Some (ex_date 0 840)) es (Some (t "Old")).
+Definition ex_creator : xcreator :=
+  mkXCreator (Some (t "2026-10-01T20:25:58+05:45")) (Some (t "vm")) (Some (mkXTool (Some (t "ascmhl")) (Some (t "1.0"))))
+             [mkXAuthor (Some (t "Jo")) (Some (t "jo@ex.org")) (Some (t "+1 555")) (Some (t "DIT")); mkXAuthor None None None None]
+             (Some (t "Set")) (Some (t "two words")).
+Definition ex_procinfo (pats : list (option text)) : xprocinfo :=
+  mkXProcInfo (Some (mkXProcess (Some (t "in-place")) None))
+              (Some (mkXRecord (Some (t ".")) true None None [ex_dentry "md5"; ex_dentry "xxh64"] None))
+              (Some pats).
+Definition ex_object : xhashlist :=
+  mkXHashList (Some ex_creator) (ex_procinfo [Some (t ".DS_Store"); Some (t "ascmhl"); Some (t "ascmhl/")])
+    [ (* entries in request order: the writer sorts them *)
+      ex_file "A/a.txt" [ex_entry "xxh64" "verified" 1; ex_entry "md5" "original" 999999; ex_entry "c4" "original" 0] None;
+      ex_dir "A" [ex_dentry "md5"; ex_dentry "xxh64"];
+      ex_file "b.txt" [ex_entry "sha1" "failed" 5] (Some (t "old/b.txt")) ]
+    [mkXRef (Some (t "A/ascmhl/0001_A_2026-10-01_202558Z.mhl")) (Some (t "c43abc"))].
+
+Example C11_ex_object_reach : reach ex_object = true.
+Proof. vm_compute. reflexivity. Qed.
+Example C11_ex_object_valid : validate schema_manifest (emit_hashlist ex_object) = true.
+Proof. vm_compute. reflexivity. Qed.
+(* a generation without records and without references (empty folder) *)
+Example C11_ex_empty_generation :
+  let o := mkXHashList (Some ex_creator) (ex_procinfo [Some (t "ascmhl")]) [] [] in
+  reach o = true /\ validate schema_manifest (emit_hashlist o) = true.
+Proof. vm_compute. auto. Qed.
+(* objects outside `reach`, and their documents are indeed invalid: the clauses are not stronger than needed here *)
+Example C11_ex_obj_no_pattern :                       (* I6 *)
+  let o := mkXHashList (Some ex_creator) (ex_procinfo []) [] [] in
+  reach o = false /\ validate schema_manifest (emit_hashlist o) = false.
+Proof. vm_compute. auto. Qed.
+Example C11_ex_obj_duplicate_format :                 (* I2: what -sf X -sf X produced *)
+  let o := mkXHashList (Some ex_creator) (ex_procinfo [None])
+             [ex_file "x" [ex_entry "md5" "original" 1; ex_entry "md5" "original" 1] None] [] in
+  reach o = false /\ validate schema_manifest (emit_hashlist o) = false.
+Proof. vm_compute. auto. Qed.
+Example C11_ex_xxh32 :                            (* I3: a format the schema does not list *)
+  let o := mkXHashList (Some ex_creator) (ex_procinfo [None]) [ex_file "x" [ex_entry "xxh32" "original" 1] None] [] in
+  reach o = false /\ validate schema_manifest (emit_hashlist o) = false.
+Proof. vm_compute. auto. Qed.
+Example C11_ex_unsorted_directory_formats :       (* I4: directory entries are NOT sorted by the writer *)
+  let o := mkXHashList (Some ex_creator) (ex_procinfo [None]) [ex_dir "A" [ex_dentry "xxh64"; ex_dentry "md5"]] [] in
+  reach o = false /\ validate schema_manifest (emit_hashlist o) = false.
+Proof. vm_compute. auto. Qed.
+Example C11_ex_action_new :                       (* I5: 'new' is not in the enumeration *)
+  let o := mkXHashList (Some ex_creator) (ex_procinfo [None]) [ex_file "x" [ex_entry "md5" "new" 1] None] [] in
+  reach o = false /\ validate schema_manifest (emit_hashlist o) = false.
+Proof. vm_compute. auto. Qed.
+Example C11_ex_directory_size :                   (* I10: a directory path has no size attribute *)
+  let o := mkXHashList (Some ex_creator) (ex_procinfo [None])
+             [mkXRecord (Some (t "A")) true (Some 5%N) None [ex_dentry "md5"] None] [] in
+  reach o = false /\ validate schema_manifest (emit_hashlist o) = false.
+Proof. vm_compute. auto. Qed.
+Example C11_ex_obj_bad_email :
+  let c := mkXCreator (Some (t "2026-10-01T20:25:58+05:45")) (Some (t "vm")) None [mkXAuthor None (Some (t "jo.ex.org")) None None] None None in
+  let o := mkXHashList (Some c) (ex_procinfo [None]) [] [] in
+  reach o = false /\ validate schema_manifest (emit_hashlist o) = false.
+Proof. vm_compute. auto. Qed.
+Example C11_ex_feb_30 :                           (* I7 *)
+  let o := mkXHashList (Some ex_creator) (ex_procinfo [None])
+             [mkXRecord (Some (t "x")) false None (Some (mkXDate 2026 2 30 0 0 0 0 0)) [] None] [] in
+  reach o = false /\ validate schema_manifest (emit_hashlist o) = false.
+Proof. vm_compute. auto. Qed.
+
+Definition ex_xchain : xchain :=
+  [mkXChainEnt (SeqStr (t "1")) (Some (t "0001_t_2026-10-01_202558Z.mhl")) (Some (t "c4")) (Some (t "c43abc"));
+   chain_entry_of_hashlist (t "0002_t_2026-10-01_202559Z.mhl") (t "c44def") 2].
+Example C11_ex_xchain : reach_chain ex_xchain = true /\ validate schema_directory (emit_chain ex_xchain) = true.
+Proof. vm_compute. auto. Qed.
+Example C11_ex_xchain_empty : reach_chain [] = false /\ validate schema_directory (emit_chain []) = false.
+Proof. vm_compute. auto. Qed.
+Example C11_ex_xchain_md5 :
+  let c := [mkXChainEnt (SeqInt 1) (Some (t "x.mhl")) (Some (t "md5")) (Some (t "00"))] in
+  reach_chain c = false /\ validate schema_directory (emit_chain c) = false.
+Proof. vm_compute. auto. Qed.
+Example C11_ex_xchain_seq :
+  let c := [mkXChainEnt (SeqStr (t "0001.")) (Some (t "x.mhl")) (Some (t "c4")) (Some (t "c4"))] in
+  reach_chain c = false /\ validate schema_directory (emit_chain c) = false.
+Proof. vm_compute. auto. Qed.
+Close Scope string_scope.
